@@ -1073,6 +1073,9 @@ class DocutilsRenderer(RendererProtocol):
                 line=token_line(token, default=0),
                 append_to=self.current_node,
             )
+            if explicit:
+                # keep the link text (as for an unresolvable `project:` link)
+                return self.render_link_url(token)
             return
         target = uri_parts.fragment
         invs, domains, otypes = None, None, None
@@ -1097,6 +1100,9 @@ class DocutilsRenderer(RendererProtocol):
                 line=token_line(token, default=0),
                 append_to=self.current_node,
             )
+            if explicit:
+                # keep the link text (as for an unresolvable `project:` link)
+                return self.render_link_url(token)
             return
         if len(matches) > 1:
             show_num = 3
